@@ -17,6 +17,14 @@ Lemma headers_same :
   v2_name_off = sphinx_v2_name_off /\ v2_version_off = sphinx_v2_version_off.
 Proof. repeat split; reflexivity. Qed.
 
+Lemma same_literals :
+  regex_same = true /\
+  hdr_v1 = sphinx_hdr_v1 /\ hdr_v2 = sphinx_hdr_v2 /\ zlib_marker = sphinx_zlib_marker /\
+  v1_name_off = sphinx_v1_name_off /\ v1_version_off = sphinx_v1_version_off /\
+  v2_name_off = sphinx_v2_name_off /\ v2_version_off = sphinx_v2_version_off /\
+  0 < BUFSIZE.
+Proof. repeat split; try reflexivity. Qed.
+
 (* ---------------- the relation between the two results ---------------- *)
 
 (* what a consumer sees of a MyST entry / of a Sphinx entry: (final location, display name) *)
